@@ -417,9 +417,16 @@ M('C07-sb-chat-id-consistent-shift', 'C07', SB_PLAY,
   rule='R07.2')
 M('C07-twin-boundary-between-snapshots', 'C07', CB_PLAY, "{'sender': UUID} if context.protocol_later_eq(718) else {}",
   "{'sender': UUID} if context.protocol_later_eq(719) else {}", expect='silent')
-M('C07-twin-port-short', 'C07', 'minecraft/networking/packets/serverbound/handshake/__init__.py',
+# (was a twin while the reference ignored signedness: a signed port cannot
+# carry a port above 32767 -- struct.error -- so this breaks the handshake)
+M('C07-port-signed-short', 'C07', 'minecraft/networking/packets/serverbound/handshake/__init__.py',
   "from minecraft.networking.types import (\n    VarInt, String, UnsignedShort\n)",
-  "from minecraft.networking.types import (\n    VarInt, String, Short as UnsignedShort\n)", expect='silent')
+  "from minecraft.networking.types import (\n    VarInt, String, Short as UnsignedShort\n)", rule='R07.3')
+M('C07-twin-gamemode-signed-byte', 'C07',
+  'minecraft/networking/packets/clientbound/play/join_game_and_respawn_packets.py',
+  "if context.protocol_later_eq(738) else {},\n        {'game_mode': UnsignedByte},\n        {'previous_game_mode': UnsignedByte}",
+  "if context.protocol_later_eq(738) else {},\n        {'game_mode': UnsignedByte},\n        {'previous_game_mode': Byte}",
+  expect='silent')
 
 # ---------------------------------------------------------------- C12
 M('C12-force-arm-no-lock', 'C12', CONN,
@@ -1083,3 +1090,74 @@ M('C08-context-caches-index', 'C08', CONN,
   "    def __init__(self, **kwds):\n        self.protocol_version = kwds.get('protocol_version')\n\n    def protocol_earlier(self, other_pv):\n        \"\"\"Returns True if the protocol version of this context was published\n           earlier than 'other_pv', or else False.\"\"\"\n        return utility.protocol_earlier(self.protocol_version, other_pv)",
   "    def __init__(self, **kwds):\n        self.protocol_version = kwds.get('protocol_version')\n        self._index = PROTOCOL_VERSION_INDICES.get(self.protocol_version)\n\n    def protocol_earlier(self, other_pv):\n        \"\"\"Returns True if the protocol version of this context was published\n           earlier than 'other_pv', or else False.\"\"\"\n        return self._index < PROTOCOL_VERSION_INDICES[other_pv]",
   rule='R08.4')
+
+# ---------------------------------------------------------------- wave 8
+# positive examples (and benign twins) for the rules added after wave 8
+M('C06-module-level-base-set', 'C06', SB_PLAY,
+  "def get_packets(context):\n    packets = {\n        KeepAlivePacket,",
+  "_BASE = set()\n\n\ndef get_packets(context):\n    packets = _BASE\n    packets |= {\n        KeepAlivePacket,",
+  rule='R06.7')
+M('C06-twin-copy-of-module-set', 'C06', SB_PLAY,
+  "def get_packets(context):\n    packets = {\n        KeepAlivePacket,",
+  "_BASE = set()\n\n\ndef get_packets(context):\n    packets = set(_BASE)\n    packets |= {\n        KeepAlivePacket,",
+  expect='silent')
+M('C08-twin-numeric-guard-107', 'C08', CONN,
+  "            if self.connection.context.protocol_later_eq(107):",
+  "            if self.connection.context.protocol_version >= 107:",
+  expect='silent')      # every snapshot number was published after 107
+M('C11-twin-numeric-guard-107', 'C11', CONN,
+  "            if self.connection.context.protocol_later_eq(107):",
+  "            if self.connection.context.protocol_version >= 107:",
+  expect='silent')
+M('C08-numeric-keepalive-guard-755', 'C08', SB_PLAY,
+  "        return 0x0F if context.protocol_later_eq(755) else \\\n               0x10 if context.protocol_later_eq(712)",
+  "        return 0x0F if context.protocol_version >= 755 else \\\n               0x10 if context.protocol_later_eq(712)",
+  rule='R08.6')
+M('C11-numeric-keepalive-guard-755', 'C11', SB_PLAY,
+  "        return 0x0F if context.protocol_later_eq(755) else \\\n               0x10 if context.protocol_later_eq(712)",
+  "        return 0x0F if context.protocol_version >= 755 else \\\n               0x10 if context.protocol_later_eq(712)",
+  rule='R11.9')
+M('C08-twin-numeric-equality', 'C08', CONN,
+  "            if self.connection.context.protocol_later_eq(107):",
+  "            if self.connection.context.protocol_version != -1 and "
+  "self.connection.context.protocol_later_eq(107):",
+  expect='silent')
+M('C12-compression-arm-flushes-first', 'C12', CONN,
+  "        elif packet.packet_name == \"set compression\":\n            self.connection.options.compression_threshold = packet.threshold",
+  "        elif packet.packet_name == \"set compression\":\n            self.connection._pop_packet()\n            self.connection.options.compression_threshold = packet.threshold",
+  rule='R12.6')
+M('C10-compression-arm-flushes-first', 'C10', CONN,
+  "        elif packet.packet_name == \"set compression\":\n            self.connection.options.compression_threshold = packet.threshold",
+  "        elif packet.packet_name == \"set compression\":\n            self.connection._pop_packet()\n            self.connection.options.compression_threshold = packet.threshold",
+  rule='R10.2q')
+M('C12-twin-compression-arm-flushes-after', 'C12', CONN,
+  "        elif packet.packet_name == \"set compression\":\n            self.connection.options.compression_threshold = packet.threshold\n            self.connection.options.compression_enabled = True\n\n        elif packet.packet_name == \"login plugin request\"",
+  "        elif packet.packet_name == \"set compression\":\n            self.connection.options.compression_threshold = packet.threshold\n            self.connection.options.compression_enabled = True\n            with self.connection._write_lock:\n                self.connection._pop_packet()\n\n        elif packet.packet_name == \"login plugin request\"",
+  expect='silent')
+M('C16-shutdown-guard-narrow', 'C16', CONN,
+  "                    except socket.error:\n                        pass\n                    finally:\n                        self.file_object.close()",
+  "                    except BrokenPipeError:\n                        pass\n                    finally:\n                        self.file_object.close()",
+  rule='R16.5')
+M('C16-twin-shutdown-guard-oserror', 'C16', CONN,
+  "                    except socket.error:\n                        pass\n                    finally:\n                        self.file_object.close()",
+  "                    except (OSError, ValueError):\n                        pass\n                    finally:\n                        self.file_object.close()",
+  expect='silent')
+M('C20-hash-of-str', 'C20', TUTIL,
+  "        return hash((type(self), values))",
+  "        return hash((type(self), str(values)))", rule='R20.5')
+M('C03-varlong-read-through-varint', 'C03', BASIC,
+  "class VarLong(VarInt):\n    max_bytes = 10\n",
+  "class VarLong(VarInt):\n    max_bytes = 10\n\n    @classmethod\n    def read(cls, file_object):\n        return VarInt.read(file_object)\n",
+  rule='R03.6')
+M('C03-twin-varlong-read-through-super', 'C03', BASIC,
+  "class VarLong(VarInt):\n    max_bytes = 10\n",
+  "class VarLong(VarInt):\n    max_bytes = 10\n\n    @classmethod\n    def read(cls, file_object):\n        return super(VarLong, cls).read(file_object)\n",
+  expect='silent')
+M('C15-status-reactor-claims-eof', 'C15', CONN,
+  "    def handle_ping(self, latency_ms):\n        print('Ping: %d ms' % latency_ms)\n",
+  "    def handle_ping(self, latency_ms):\n        print('Ping: %d ms' % latency_ms)\n\n    def handle_exception(self, exc, exc_info):\n        return isinstance(exc, EOFError)\n",
+  rule='R15.5')
+M('C15-twin-status-reactor-declines', 'C15', CONN,
+  "    def handle_ping(self, latency_ms):\n        print('Ping: %d ms' % latency_ms)\n",
+  "    def handle_ping(self, latency_ms):\n        print('Ping: %d ms' % latency_ms)\n\n    def handle_exception(self, exc, exc_info):\n        return False\n",
+  expect='silent')
